@@ -202,6 +202,11 @@ func (fc *FnCtx) loopHeader(h *ssa.BasicBlock, phiEntry map[*ssa.Phi]string) {
 			st.m[k] = g.fresh("lp."+k, g.keys[k].sort)
 		}
 		g.assumeRaw(fmt.Sprintf("(<= %s %s)", old, g.get(st, "$alloc")))
+		for _, k := range g.keyOrder {
+			if g.keys[k].ref != "" && g.keys[k].kind != "stable" {
+				g.heapBound(k, g.get(st, k), g.get(st, "$alloc"))
+			}
+		}
 	} else {
 		old := g.get(st, "$alloc")
 		for _, k := range g.keyOrder {
@@ -211,6 +216,11 @@ func (fc *FnCtx) loopHeader(h *ssa.BasicBlock, phiEntry map[*ssa.Phi]string) {
 		}
 		if g.loopMods[id]["$alloc"] {
 			g.assumeRaw(fmt.Sprintf("(<= %s %s)", old, g.get(st, "$alloc")))
+		}
+		for _, k := range g.keyOrder {
+			if g.loopMods[id][k] && g.keys[k].ref != "" {
+				g.heapBound(k, g.get(st, k), g.get(st, "$alloc"))
+			}
 		}
 	}
 	fc.cur = st
